@@ -18,7 +18,7 @@ Two layers.
   goroutine: a transaction begins (`readTsBegin`), tests/parks in `WaitForMark`, reads, writes,
   commits (`newCommitTs`), is discarded (`doneRead`), the write pipeline reports a commit as
   applied (`doneCommit`), a `process` goroutine handles one mark, managed-mode calls.
-  `Reach` is reachability from `Sys.opened`. The write pipeline itself (write channel order,
+  `OReach` is reachability from `Sys.opened`. The write pipeline itself (write channel order,
   memtable application) is not part of this file: its only interaction with the oracle is the
   `doneCommit ts` step, which the pipeline model enables once the request is applied
   (hook for C03: `Label.doneCommit`, `Sys.allocatedNotDone`).
@@ -377,9 +377,9 @@ def Sys.step (s : Sys) : Label → Option Sys
     | none => some { s with crashed := true }
 
 /-- Reachable states of a database opened at `MaxVersion() = n`. -/
-inductive Reach (managed detect : Bool) (n : Nat) : Sys → Prop where
-  | init : Reach managed detect n (Sys.opened managed detect n)
-  | step {s s' : Sys} (l : Label) : Reach managed detect n s → s.step l = some s' → Reach managed detect n s'
+inductive OReach (managed detect : Bool) (n : Nat) : Sys → Prop where
+  | init : OReach managed detect n (Sys.opened managed detect n)
+  | step {s s' : Sys} (l : Label) : OReach managed detect n s → s.step l = some s' → OReach managed detect n s'
 
 /-- A transaction holds the read mark: it has sent `readMark.Begin(readTs)` and not yet
     `readMark.Done(readTs)`. -/
